@@ -309,12 +309,29 @@ func c08ViaLoaders(run *evid.Run, n int) {
 			run.Count("logs_written_with_a_key_buffer_wiped_midway", 1)
 		}
 		l := w.NewLog(i % 2)
+		if i%5 == 3 {
+			// a writer whose identity id was not minted by the built-in provider (the id is an opaque string)
+			cid := []string{"0xAbCdEf0123456789", "did:key:z6MkhaXgBZDvotDkL5257faiztiGiC2QtKLGpbnnEGta2doK", "ABCDEF0123", "user@example.org/device 1", "ünïcode-id"}[(i/5)%5]
+			if nl, err := ipfslog.NewLog(w.Store.API(), w.CustomIdentity(cid), w.LogOpts(w.LogID)); err == nil {
+				l = nl
+				run.Count("logs_written_by_an_identity_with_an_application_chosen_id", 1)
+			}
+		}
 		written := map[string]iface.IPFSLogEntry{}
 		for k := 0; k < 4+i%7; k++ {
 			if wipe != nil && k == 2 {
 				wipe()
 			}
-			e, err := l.Append(w.Ctx, classPayload(payloadClasses[(i+k)%len(payloadClasses)], fmt.Sprintf("%d/%d/%d", run.Seed, i, k), rand.New(rand.NewSource(int64(i*100+k)))), &iface.AppendOptions{PointerCount: 1 << uint(k%5)})
+			if i%4 == 1 && k == 3 {
+				// the writer changes in mid-life: what was written before stays what it was
+				l.SetIdentity(w.Idents[(i+1)%2])
+				run.Count("logs_with_an_identity_change_midway", 1)
+			}
+			pin := (i+k)%3 == 0 // the harness pin service accepts any identifier
+			if pin {
+				run.Count("pinned_appends", 1)
+			}
+			e, err := l.Append(w.Ctx, classPayload(payloadClasses[(i+k)%len(payloadClasses)], fmt.Sprintf("%d/%d/%d", run.Seed, i, k), rand.New(rand.NewSource(int64(i*100+k)))), &iface.AppendOptions{PointerCount: 1 << uint(k%5), Pin: pin})
 			if err != nil {
 				run.Violate("C08/create-error", det("codec", codec), nil, "append failed: %v", err)
 				return
